@@ -55,6 +55,7 @@ PROBES = [1, 0.5, -0.5, 0.25, -0.25, 0.3, -0.7, 2, 3, 1.5, 2.5, 0, 0.75]
 
 def run(ctx):
     repo = ctx.repo
+    _sampling_alignment(ctx, repo)
     shared.module_state_rule(ctx, 'C17.f', ['cirq-ionq/cirq_ionq/', 'cirq-aqt/cirq_aqt/', 'cirq-pasqal/cirq_pasqal/'], floor=2)
     ctx.decided.append('C17.f vendor converters keep no state between calls (module-level containers never written from inside a function)')
     ctx.decided += [
@@ -398,3 +399,75 @@ def run(ctx):
         g = {k.value: ast.unparse(v).split('.')[-1] for k, v in zip(gd.keys, gd.values) if isinstance(k, ast.Constant)}
         ok = g.get('MS') == 'XX' and g.get('Z') == 'Z' and g.get('R') == 'PhasedXPowGate'
         ctx.ob('C17.d', 'aqt_device.gate_dict', ok, '' if ok else f'simulator gate table {g} disagrees with the op strings', ad.rel, gd.lineno)
+
+
+def _sampling_alignment(ctx, repo):
+    """C17.g - outcomes and their probabilities stay paired from the histogram to the sampling call."""
+    ctx.decided.append('C17.g IonQ simulator results: the outcome list that sampled indices select from and the weight list given to choice(p=...) are taken from the same pass over the '
+                       'probability dictionary (neither is reordered on its own)')
+    ctx.rule('C17.g', 'paired sequences: for every <rng>.choice(..., p=W) in the vendor packages whose result indexes a sequence V, V and W derive from the '
+             'histogram in its own order: no reordering call (sorted / reversed / set / sort / unique / shuffle) is applied to one of them alone', floor=1, style='TNT')
+    REORDER = {'sorted', 'reversed', 'set', 'frozenset', 'sort', 'unique', 'shuffle', 'permutation'}
+    n = 0
+    for m in sorted(repo.modules.values(), key=lambda x: x.rel):
+        if not m.rel.startswith(('cirq-ionq/cirq_ionq/', 'cirq-aqt/cirq_aqt/', 'cirq-pasqal/cirq_pasqal/')) or m.rel.endswith('_test.py'):
+            continue
+        for fn in [f for f in ast.walk(m.tree) if isinstance(f, ast.FunctionDef)]:
+            for c in ast.walk(fn):
+                if not (isinstance(c, ast.Call) and isinstance(c.func, ast.Attribute) and c.func.attr == 'choice' and any(k.arg == 'p' for k in c.keywords)):
+                    continue
+                n += 1
+                wexpr = [k.value for k in c.keywords if k.arg == 'p'][0]
+                # the name the result is bound to, and the sequences it indexes
+                res = None
+                for st in ast.walk(fn):
+                    if isinstance(st, ast.Assign) and st.value is c and isinstance(st.targets[0], ast.Name):
+                        res = st.targets[0].id
+                indexed = set()
+                if res:
+                    for s_ in ast.walk(fn):
+                        if isinstance(s_, ast.Subscript) and any(isinstance(x, ast.Name) and x.id == res for x in ast.walk(s_.slice)):
+                            indexed |= {x.id for x in ast.walk(s_.value) if isinstance(x, ast.Name)}
+                wnames = {x.id for x in ast.walk(wexpr) if isinstance(x, ast.Name)}
+                defs = {}
+                for st in ast.walk(fn):
+                    if isinstance(st, ast.Assign):
+                        for t in st.targets:
+                            for x in ast.walk(t):
+                                if isinstance(x, ast.Name):
+                                    defs.setdefault(x.id, []).append(st)
+
+                def chain(names):
+                    seen, todo, stmts = set(), list(names), []
+                    while todo:
+                        v = todo.pop()
+                        if v in seen:
+                            continue
+                        seen.add(v)
+                        for st in defs.get(v, []):
+                            stmts.append(st)
+                            todo += [x.id for x in ast.walk(st.value) if isinstance(x, ast.Name)]
+                    return stmts
+
+                def reorders(stmts):
+                    out = []
+                    for st in stmts:
+                        for x in ast.walk(st.value):
+                            if isinstance(x, ast.Call) and (call_name(x) or '').split('.')[-1] in REORDER:
+                                out.append((st, x))
+                    return out
+                vch, wch = chain(indexed - {res}), chain(wnames)
+                joint = [st for st in vch if st in wch and isinstance(st.targets[0], ast.Tuple)]
+                rv = [r for r in reorders(vch) if r[0] not in joint]
+                rw = [r for r in reorders(wch) if r[0] not in joint]
+                ok = not rv and not rw and bool(indexed)  # keys()/values()/items() of one dict are aligned by the language; only a one-sided reordering breaks the pairing
+                why = ''
+                if not ok:
+                    if rv or rw:
+                        st, x = (rv or rw)[0]
+                        why = f'`{ast.unparse(st)[:70]}` reorders only one of the two sequences: outcome i is then sampled with the probability of some other outcome'
+                    else:
+                        why = 'the sampled indices no longer select from a sequence of outcomes'
+                ctx.ob('C17.g', f'{m.name}.{fn.name}:choice(p=)', ok, why, m.rel, c.lineno)
+    if n == 0:
+        raise AnalysisError('C17.g: no weighted choice() left in the vendor packages')
